@@ -153,6 +153,11 @@ HANDLERS = {
     "h_silent": handler(ret="none"),
     "h_suffix": handler(suffix=".res", ttl=TTL_T),
     "h_ttl": handler(ttl=TTL_T),
+    # C14: reacts to every frame and appends with a meta that collides with the stamp keys: if the stamp did not
+    # win, its own output would look foreign and feed it for ever
+    "h_all_collide": handler(react="all", appends=[dict(topic="o.a2", meta="collide")]),
+    # C16: a handler (always registered as "hq") that unregisters itself from inside its closure
+    "h_selfstop": handler(appends=[dict(topic="hq.unregister")]),
     "h_own": handler_own(),
     "h_suffix_a": handler(suffix=".res", appends=[A2U]),
     "h_fail_before": handler(fail="before", appends=[A1]),
